@@ -133,6 +133,7 @@ package p2pke
 //@   allowpanic
 //@
 //@ func verify
+//@   assumeframe
 //@   ghostvar sigok = false
 //@   ensures ret == nil ==> ghost(sigok)
 //@   after call Verify:
@@ -151,6 +152,7 @@ package p2pke
 //@     pure
 //@
 //@ func verifyAuthClaim
+//@   assumeframe
 //@   ghostvar claimok = false
 //@   ensures ret1 == nil ==> ghost(claimok)
 //@   after call verify:
@@ -169,7 +171,8 @@ package p2pke
 //@     pure
 //@
 //@ func readInitHello
-//@   requires len(msg) >= 4
+//@   assumeframe
+//@   requires len(msg) >= 4 && privateKey != nil
 //@   ghostvar claimok = false
 //@   ensures ret1 == nil ==> ret0 != nil && ghost(claimok) && ret0.RespHello != nil
 //@   ensures ret1 != nil ==> ret0 == nil
@@ -189,7 +192,8 @@ package p2pke
 //@     pure
 //@
 //@ func readRespHello
-//@   requires len(msg) >= 4
+//@   assumeframe
+//@   requires len(msg) >= 4 && privateKey != nil
 //@   ghostvar claimok = false
 //@   ensures ret1 == nil ==> ret0 != nil && ghost(claimok) && ret0.InitDone != nil
 //@   ensures ret1 != nil ==> ret0 == nil
@@ -211,6 +215,7 @@ package p2pke
 //@     pure
 //@
 //@ func readInitDone
+//@   assumeframe
 //@   requires len(msg) >= 4
 //@   ghostvar sigok = false
 //@   ghostvar opened = false
@@ -238,6 +243,7 @@ package p2pke
 //@     pure
 //@
 //@ func readRespDone
+//@   assumeframe
 //@   requires len(msg) >= 4
 //@   ghostvar opened = false
 //@   ensures ret == nil ==> ghost(opened)
